@@ -488,3 +488,22 @@ Proof.
   destruct (run_transfer_prefix rep exact (arith_le_sim _ _ rep_le_exact rep_op_only) _ _ _ _ H) as (tle & oe & Ee).
   exists tld, od, tle, oe. auto.
 Qed.
+
+(* ---- the statements in terms of [arith_le] ---- *)
+Theorem transfer_principle A B init txs ds o :
+  arith_le A B -> op_only A ->
+  run A init txs = (ds, o) -> opstopb o = false -> run B init txs = (ds, o).
+Proof. intros Hle Hop. exact (run_transfer A B (arith_le_sim _ _ Hle Hop) init txs ds o). Qed.
+
+Theorem transfer_prefix A B init txs ds o :
+  arith_le A B -> op_only A ->
+  run A init txs = (ds, o) -> exists tl o', run B init txs = (ds ++ tl, o').
+Proof. intros Hle Hop. exact (run_transfer_prefix A B (arith_le_sim _ _ Hle Hop) init txs ds o). Qed.
+
+Theorem transfer_principle_app A B inits rows l :
+  arith_le A B -> op_only A ->
+  run_app A inits rows = Ok l -> forallb sec_ok l = true -> run_app B inits rows = Ok l.
+Proof. intros Hle Hop. exact (run_app_transfer A B (arith_le_sim _ _ Hle Hop) inits rows l). Qed.
+
+Theorem rep_refines_both : arith_le rep exact /\ arith_le rep dec /\ op_only rep.
+Proof. split; [exact rep_le_exact | split; [exact rep_le_dec | exact rep_op_only]]. Qed.
